@@ -18,7 +18,7 @@ var c17Groups = [][]string{
 	{"MOV AX,[BX+SI]", "MOV EAX,[BP]", "MOV CX,[EAX+EAX]"}, {"CMP BYTE [0x0ff0],0", "MOV [ESI+4],AX", "ADD EAX,[EBP+ECX*4]"},
 }
 
-var c17Neutral = []string{"", "; comment", `[INSTRSET "i486p"]`, "X EQU 5", "EXTERN ext1", "lbl:", "DB 0x11"}
+var c17Neutral = []string{"", "; comment", `[INSTRSET "i486p"]`, "X EQU 5", "EXTERN ext1", "lbl:", "DB 0x11", "DB 1\n\tDB 2\n\tDB 3", "DW 1\n\tDW 2\n\tDD 3\n\tDD 4"}
 
 // size-estimate defects that are C03's known findings, per "mode|group" (none left: PUSH imm16 was repaired by 1525c62)
 var c17KnownSizeDrift = map[string]int64{}
@@ -42,7 +42,7 @@ func c17Scenarios(tier string) []*core.Scenario {
 	var scs []*core.Scenario
 	scs = append(scs, &core.Scenario{
 		Name: "mode_switches", Bound: -1,
-		Rule:   "programs of 3 segments with a directive choice {none, [BITS 16], [BITS 32], [BITS 32][BITS 16], [BITS 16][BITS 32]} (the last two: a directive overridden at once by the next line) in front of each x 18 mode-sensitive instruction groups x 7 neutral statements between directive and instructions; output must equal the concatenation of each segment assembled alone under the mode in force; non-trivial = at least two different modes in force",
+		Rule:   "programs of 3 segments with a directive choice {none, [BITS 16], [BITS 32], [BITS 32][BITS 16], [BITS 16][BITS 32]} (the last two: a directive overridden at once by the next line) in front of each x 18 mode-sensitive instruction groups x 9 neutral statements (incl. runs of data directives) between directive and instructions; output must equal the concatenation of each segment assembled alone under the mode in force; non-trivial = at least two different modes in force",
 		Bounds: map[string]any{"segments": 3, "directive_choices": []string{"none", "16", "32", "32 then 16", "16 then 32"}, "groups": len(c17Groups), "neutral": c17Neutral},
 		Build: func(c *core.Chooser) *core.Case {
 			g := c.Pick("group", len(c17Groups))
@@ -81,13 +81,13 @@ func c17Scenarios(tier string) []*core.Scenario {
 				src.WriteString(bitsLine(dirs[i]))
 				if n != "" && dirs[i] != 0 {
 					src.WriteString(stmtLine(n))
-					if strings.HasPrefix(n, "DB ") {
+					if (strings.HasPrefix(n, "DB ") || strings.HasPrefix(n, "DW ")) {
 						neutralBytes++
 					}
 				}
 				src.WriteString(c17Body(grp))
 				pre := ""
-				if n != "" && dirs[i] != 0 && strings.HasPrefix(n, "DB ") {
+				if n != "" && dirs[i] != 0 && (strings.HasPrefix(n, "DB ") || strings.HasPrefix(n, "DW ")) {
 					pre = stmtLine(n)
 				}
 				segSrcs = append(segSrcs, bitsLine(inForce)+pre+c17Body(grp))
